@@ -191,13 +191,17 @@ static void x86_p3(BaseEmitter* em, CodeHolder& code, unsigned k, ErrAcc& E) {
 }
 
 // P4: compiler function with more live values than registers (spills), a stack slot, a call, local+global constants
-static void x86_func_spill(x86::Compiler& cc, unsigned k, ErrAcc& E, Label* self_out = nullptr, const Label* callee = nullptr, ConstPoolScope gscope = ConstPoolScope::kGlobal) {
+static void x86_func_spill(x86::Compiler& cc, unsigned k, ErrAcc& E, Label* self_out = nullptr, const Label* callee = nullptr, ConstPoolScope gscope = ConstPoolScope::kGlobal, std::vector<x86::Gp>* shared = nullptr) {
   FuncNode* fn = cc.add_func(FuncSignature::build<uint32_t, uint32_t, uint32_t, void*>());
   if (!fn) { E(Error::kOutOfMemory); return; }
   if (self_out) *self_out = fn->label();
   const unsigned NV = 20;
+  // `shared`: virtual registers that live in the Compiler across functions (created by the first user)
   x86::Gp v[NV];
-  for (unsigned i = 0; i < NV; i++) v[i] = cc.new_gp32("v%u", i);
+  for (unsigned i = 0; i < NV; i++) {
+    if (shared && shared->size() > i) v[i] = (*shared)[i];
+    else { v[i] = cc.new_gp32("v%u", i); if (shared) shared->push_back(v[i]); }
+  }
   x86::Gp p = cc.new_gp_ptr("p");
   x86::Vec f = cc.new_xmm_sd("f");
   fn->set_arg(0, v[0]);
@@ -277,9 +281,10 @@ static void x86_p5(BaseEmitter* em, CodeHolder&, unsigned k, ErrAcc& E) {
 // label).  part = 0: all three; part = 1..3: only that function (the fresh run compiles each with its own Compiler)
 static void x86_p6(BaseEmitter* em, CodeHolder&, unsigned k, ErrAcc& E, int part, Label& first) {
   x86::Compiler& cc = *static_cast<x86::Compiler*>(em);
-  if (part == 0 || part == 1) x86_func_spill(cc, k, E, &first, nullptr, ConstPoolScope::kLocal);
+  std::vector<x86::Gp> shared;      // the first and the third function use the SAME virtual registers when one Compiler builds both
+  if (part == 0 || part == 1) x86_func_spill(cc, k, E, &first, nullptr, ConstPoolScope::kLocal, &shared);
   if (part == 0 || part == 2) x86_func_jtab(cc, k + 1, E);
-  if (part == 0 || part == 3) x86_func_spill(cc, k + 2, E, nullptr, &first, ConstPoolScope::kLocal);
+  if (part == 0 || part == 3) x86_func_spill(cc, k + 2, E, nullptr, &first, ConstPoolScope::kLocal, &shared);
 }
 
 // ---- AArch64 ------------------------------------------------------------------------------------------------
@@ -404,13 +409,16 @@ static void a64_p3(BaseEmitter* em, CodeHolder& code, unsigned k, ErrAcc& E) {
   b->remove_nodes(r0, r1);
 }
 
-static void a64_func_spill(a64::Compiler& cc, unsigned k, ErrAcc& E, Label* self_out = nullptr, const Label* callee = nullptr, ConstPoolScope gscope = ConstPoolScope::kGlobal) {
+static void a64_func_spill(a64::Compiler& cc, unsigned k, ErrAcc& E, Label* self_out = nullptr, const Label* callee = nullptr, ConstPoolScope gscope = ConstPoolScope::kGlobal, std::vector<a64::Gp>* shared = nullptr) {
   FuncNode* fn = cc.add_func(FuncSignature::build<uint32_t, uint32_t, uint32_t, void*>());
   if (!fn) { E(Error::kOutOfMemory); return; }
   if (self_out) *self_out = fn->label();
   const unsigned NV = 34;
   a64::Gp v[NV];
-  for (unsigned i = 0; i < NV; i++) v[i] = cc.new_gp32("v%u", i);
+  for (unsigned i = 0; i < NV; i++) {
+    if (shared && shared->size() > i) v[i] = (*shared)[i];
+    else { v[i] = cc.new_gp32("v%u", i); if (shared) shared->push_back(v[i]); }
+  }
   a64::Gp p = cc.new_gp_ptr("p");
   a64::Vec f = cc.new_vec_d("f");
   fn->set_arg(0, v[0]);
@@ -496,9 +504,10 @@ static void a64_p5(BaseEmitter* em, CodeHolder&, unsigned k, ErrAcc& E) {
 }
 static void a64_p6(BaseEmitter* em, CodeHolder&, unsigned k, ErrAcc& E, int part, Label& first) {
   a64::Compiler& cc = *static_cast<a64::Compiler*>(em);
-  if (part == 0 || part == 1) a64_func_spill(cc, k, E, &first, nullptr, ConstPoolScope::kLocal);
+  std::vector<a64::Gp> shared;
+  if (part == 0 || part == 1) a64_func_spill(cc, k, E, &first, nullptr, ConstPoolScope::kLocal, &shared);
   if (part == 0 || part == 2) a64_func_jtab(cc, k + 1, E);
-  if (part == 0 || part == 3) a64_func_spill(cc, k + 2, E, nullptr, &first, ConstPoolScope::kLocal);
+  if (part == 0 || part == 3) a64_func_spill(cc, k + 2, E, nullptr, &first, ConstPoolScope::kLocal, &shared);
 }
 
 static void emit_program(Arch arch, BaseEmitter* em, CodeHolder& code, int prog, ErrAcc& E, int part = 0, Label* first = nullptr) {
